@@ -54,6 +54,7 @@ CLAIMS.update({
     "C07": dict(engine="direct+corpus", text="Built-ins: 100 hand-written FromMeta targets x hostile meta items (token soup, 44-digit integers, 1e999, 120-deep nesting, every literal kind) under catch_unwind. Corpus: four corpora (general, element-level with all forward_attrs forms incl. the empty list and no attributes(..), enum grid, magic fields + supports + body receivers) x generated inputs and two token-level hostile mutations of each (deleted / duplicated / replaced tokens, other delimiters, deep nesting, unions, empty enums): every reply is ok or err; a panic reply or a dead driver process is the violation.", note=CORPUS_NOTE + " A panic is observed through catch_unwind in the driver / harness and through the driver's exit status.", technique="runtime monitoring: panic / abort monitor around every parsing entry point under hostile generated workloads"),
     "C16": dict(engine="direct+corpus", text="API: random structs / enums / unions through ast::Fields, ast::Data, ast::Generics and the library's own implementers mirror the input and re-print the fields. Corpus: K receivers declaring random subsets of magic fields (generics plain / SpannedValue / WithOriginal / Result, data plain or with-converter, generated FromVariant / FromField body receivers) x structured input elements (4 struct styles x 0..6 fields, enums of 0..6 mixed variants with discriminants, unions, generics, visibilities): every magic field equals the corresponding part of the input token-for-token, body entries in order, failures exactly as predicted.", note=CORPUS_NOTE, technique=CORPUS_TECH),
     "C18": dict(engine="direct+corpus", text="API: all 2^4 runtime shape sets x shapes x bodies x every AsShape implementor (exhaustive). Corpus: receivers with random supports(..) word sets (FromDeriveInput and FromVariant) x all body shapes incl. enums with mixed variants and unions: accept / one error per non-conforming variant / error (never a crash) on unions, as the documented table says.", note=CORPUS_NOTE, technique=CORPUS_TECH + "; exhaustive table check of the stand-alone API"),
+    "C20": dict(engine="corpus", text="Held on K accepted receiver declarations with hostile names (option words, generated-local names, raw identifiers, prelude-named variants), generics, closures and every option combination of the other corpora, emitted into crates whose only dependency is darling and compiled by rustc: zero errors. The same emitter's other corpora (C01..C18, thousands of programs per thorough run) compile too.", note="rustc is the oracle; a compile error is mapped to the receiver by line. Generator legality (Appendix B of DESIGN.md) is what keeps a compile failure from being the generator's fault.", technique="runtime monitoring of the compiler: generated programs built against the working tree, rustc diagnostics as the observed events"),
     "C08": dict(engine="corpus", text="Held on K element-level receivers (5 traits, 0..3 attribute names, forward_attrs absent/bare/list/empty, attrs plain or with-converter) x item sequences x 2..7 partitions into attributes with empty / bare / foreign attributes interspersed: every partition gives the reply of the single-attribute form, equals the interpreter's value (incl. the forwarded attributes token-for-token in order).", note=CORPUS_NOTE, technique=CORPUS_TECH + "; metamorphic comparison across partitions"),
     "C09": dict(engine="corpus", text="Held on K enum receivers x the full grid of (every variant name + near-miss, skipped, Rust-spelled and unknown names) x 19 forms (string, word, name-value of each literal kind, list with 0..3 items, literal item, non-literal expression, direct from_string / from_word / from_none): value or errors equal the interpreter's selection rule.", note=CORPUS_NOTE, technique=CORPUS_TECH),
     "C17": dict(engine="direct+corpus", text="API: random names / candidate lists against an independent argmax over Jaro-Winkler with the 0.8 threshold, sibling alternates at the origin / after at() / on bundles. Corpus: every unknown-name leaf's suggestion is a maximal candidate among the names valid at that position (skipped / flatten members excluded, parent names only for names the flatten member received directly), the suggested name re-sent in place is accepted, and a corpus built without the `suggestions` feature shows the same errors with no suggestion.", note=CORPUS_NOTE + " strsim::jaro_winkler is third-party and is the metric.", technique=CORPUS_TECH + "; feature-off configuration rebuilt and compared"),
